@@ -13,7 +13,7 @@ GRID     := `-` (no rows) | rows joined by `/`;  row := `e` (no cells) | runs jo
 Core Lean only.
 -/
 import VaxisModel.Driver.Common
-import VaxisModel.Model.Emu
+import VaxisModel.Model.EmuState
 
 namespace VaxisModel.Model.EmuIO
 open VaxisModel.Driver VaxisModel.Model.Emu VaxisModel.Gen.TermModes
